@@ -63,7 +63,7 @@ def base_env(pid, tier, seed):
     return env
 
 
-def replay_once(binpath, pid, tier, seed, path, extra_env=None, timeout=300):
+def replay_once(binpath, pid, tier, seed, path, extra_env=None, timeout=1800):
     env = base_env(pid, tier, seed)
     env['VERIF_REPLAY_DIR'] = os.path.join(VERIF, 'replays', pid)
     env.pop('VERIF_STATS', None)
